@@ -9,5 +9,7 @@ import BnpVerif.Props.C18
 #print axioms C18.int_lists
 #print axioms C18.split_join
 #print axioms C18.int_lists_roundtrip
+#print axioms C18.float_logic_partial
+#print axioms C18.float_logic_sci_partial
 #print axioms C18.format_int_old_unsound_min
 #print axioms C18.format_int_old_unsound_pow
